@@ -67,10 +67,13 @@ FlatIgn(chain, top, L) ==
     IF L < 1 THEN <<>>
     ELSE [i \in 1..Len(chain[L].ign) |-> Ren(chain[L].ign[i], L, chain, top)] \o FlatIgn(chain, top, L - 1)
 
-Flat(chain, top) ==
+(* sname: how the chain spells its start rule ("start" in any capitalisation; one spelling per chain here) *)
+FlatS(chain, top, sname) ==
     [rules |-> FlatRules(chain, top, 1),
      ign   |-> FlatIgn(chain, top, top),
-     start |-> IF HasDef(chain, 1, top, "start") THEN Q("start", MaxDef(chain, 1, top, "start")) ELSE ""]
+     start |-> IF HasDef(chain, 1, top, sname) THEN Q(sname, MaxDef(chain, 1, top, sname)) ELSE ""]
+
+Flat(chain, top) == FlatS(chain, top, "start")
 
 (* entry point R of module `top` *)
 EntryName(chain, top, r) == IF HasDef(chain, 1, top, r) THEN Q(r, MaxDef(chain, 1, top, r)) ELSE "?undefined"
